@@ -733,6 +733,13 @@ def cases(ctx):
             nd += 2
     ctx.notes.append("constructor calls: %d (all field lists <=3 x dataclass/NamedTuple x 0-4 positionals x keyword "
                      "sequences over x,y,z,w up to length %d; + starred / **kw / defaulted-field variants)" % (nd, max_kw))
+    # the same constructor-call *node object* at two places of one tree, as helper inlining produces it when a helper
+    # uses its parameter twice (f(P(e.a, y=e.b)) with def f(p): return p.x + p.y): the lowering must not depend on
+    # having already lowered the node once
+    shared = [e for tag, e in out if tag == "dcall" and isinstance(e, ast.Call) and e.keywords][:: 3]
+    for e in shared:
+        out.append(("shared", ast.Tuple(elts=[e, e], ctx=ast.Load())))
+    ctx.notes.append("constructor-call nodes shared between two positions of one tree: %d" % len(shared))
     npc = np_call_cases()
     out += npc
     ctx.notes.append("oracle-only constructor pool (kw_only fields in every position, inheritance, InitVar, init=False, "
@@ -827,6 +834,11 @@ def check_case(ctx, tag, e, ans, pinned_ans=None, preds_ans=None):
         ctx.count("bind_oracle" if tag == "dcall" else "bind_oracle_nonplain", bind_oracle(e)[0])
         if p:
             problems.append(("bind", p))
+    if tag == "shared":
+        sep = impl(ast.Tuple(elts=[copy.deepcopy(x) for x in e.elts], ctx=ast.Load()))
+        if impl_line(sep) != got:
+            problems.append(("bind", "a constructor call lowered twice through one shared node gives %s, the same tree "
+                             "with separate nodes gives %s" % (got[:160], impl_line(sep)[:160])))
     wf = gensok and not raw
     if st == "exc" and out != "ValueError" and wf and not unparsable(e):
         problems.append(("total", "crash %s on a well-formed tree" % out))
@@ -1005,6 +1017,8 @@ def run(ctx):
 
 def replay(ctx, w):
     e = dec(w["expr_dump"])
+    if w.get("tag") == "shared" and isinstance(e, ast.Tuple) and len(e.elts) == 2:
+        e.elts[1] = e.elts[0]
     sx = bridge.to_sx(e)
     (ans,) = ctx.driver.call("sugar", [[sx]])
     (pa,) = ctx.driver.call("sugar_pinned", [[sx]])
